@@ -2,6 +2,13 @@ import LdarModel.Model.Heap
 import LdarModel.Generated.Wiring
 /-
 C01 — every program of a simulation set faces the identical emission scenario.
+
+Part 1 (cursor loop): who is handed which emission, on which day (`activateSrc_spec`, `runSrc_spec`,
+`activate_complete`, `activation_day`).
+Part 2 (objects): emission objects are mutable and live in the infrastructure; programs have
+ARBITRARY behaviours (`Beh`, ∀-quantified); `copied` runs each program on `deepcopy` of the object,
+`shared` in place (`C01_objects`, `C01_objects_any_two`, `C01_needs_copy`).
+Part 3 (tables): obligations over `Generated/Wiring.lean`, extracted from the source on every run.
 -/
 namespace LdarModel.Heap
 
@@ -180,23 +187,271 @@ theorem C01_any_two (N : Nat) (workers : List (List Nat)) (g : Store) :
   obtain ⟨l', ⟨ps', _, rfl⟩, hyl⟩ := hy
   rw [runSeq_copied N ps g x hxl, runSeq_copied N ps' g y hyl]
 
-/-- without the copy the property fails: the second program of a worker finds the lists consumed -/
-theorem C01_needs_copy :
+/-- without the copy the property fails (identity level): the second program of a worker finds the
+pending lists consumed -/
+theorem C01_needs_copy_consumed :
     ∃ (g : Store) (N : Nat), ∃ x ∈ runSchedule .shared N [[0, 1]] g, x.2 ≠ expected N g := by
   refine ⟨[{ pending := [{ id := 0, start := -3 }, { id := 1, start := 2 }] }], 5, ?_⟩
   decide +kernel
 
+/-! ### activation day -/
+
+theorem sorted_tail (x : EmId) (xs : List EmId) (h : sortedByStart (x :: xs) = true) :
+    sortedByStart xs = true := by
+  cases xs with
+  | nil => rfl
+  | cons y ys => simp [sortedByStart] at h; exact h.2
+
+theorem sorted_head_le (x : EmId) (xs : List EmId) (h : sortedByStart (x :: xs) = true) :
+    ∀ y ∈ xs, x.start ≤ y.start := by
+  induction xs generalizing x with
+  | nil => intro y hy; cases hy
+  | cons z zs ih =>
+    simp only [sortedByStart, Bool.and_eq_true, decide_eq_true_eq] at h
+    intro y hy
+    rcases List.mem_cons.1 hy with rfl | hy
+    · exact h.1
+    · have := ih z h.2 y hy; omega
+
+/-- in a sorted list, what becomes due between two days is exactly what starts in between -/
+theorem sorted_between (l : List EmId) (d1 d2 : Int) (h : sortedByStart l = true) :
+    (l.dropWhile (le d1)).takeWhile (le d2) = l.filter (fun e => !le d1 e && le d2 e) := by
+  induction l with
+  | nil => rfl
+  | cons x xs ih =>
+    have hs := sorted_tail x xs h
+    by_cases h1 : x.start ≤ d1
+    · simp only [le, h1, decide_true, List.dropWhile_cons_of_pos, Bool.not_true, Bool.false_and,
+        Bool.false_eq_true, not_false_eq_true, List.filter_cons_of_neg]
+      exact ih hs
+    · have hd : (x :: xs).dropWhile (le d1) = x :: xs := by simp [le, h1]
+      rw [hd, sorted_takeWhile_eq_filter _ _ h]
+      apply List.filter_congr
+      intro y hy
+      have : ¬ y.start ≤ d1 := by
+        rcases List.mem_cons.1 hy with rfl | hy
+        · exact h1
+        · have := sorted_head_le x xs h y hy; omega
+      simp [le, this]
+
+theorem srcAfter_all (n : Nat) (s : Src) :
+    (srcAfter (n + 1) s).all = s.all.dropWhile (le (n : Int)) := by
+  have := (runSrc_spec n 0 s).2
+  simpa [srcAfter] using this
+
+/-- **activation day**: with a sorted pending list, the emissions a source hands out on day `n`
+(day 0 = first simulated day) are exactly those with `max start 0 = n` — pre-existing emissions on
+the first day, every other one on its start date, none twice (the days partition the list) -/
+theorem activation_day (s : Src) (hs : sortedByStart s.all = true) (n : Nat) :
+    handedOutOn n s = s.all.filter (fun e => decide ((if e.start > 0 then e.start else 0) = (n : Int))) := by
+  unfold handedOutOn
+  rw [(activateSrc_spec _ _).1]
+  cases n with
+  | zero =>
+    have : srcAfter 0 s = s := rfl
+    rw [this, sorted_takeWhile_eq_filter _ _ hs]
+    apply List.filter_congr
+    intro e _
+    simp only [le]
+    by_cases h : e.start > 0
+    · simp [h]; omega
+    · simp [h]; omega
+  | succ m =>
+    rw [srcAfter_all, sorted_between _ _ _ hs]
+    apply List.filter_congr
+    intro e _
+    simp only [le]
+    have hc : ((m + 1 : Nat) : Int) = (m : Int) + 1 := by push_cast; rfl
+    rw [hc]
+    by_cases h : e.start > 0
+    · by_cases h1 : e.start ≤ (m : Int) <;> by_cases h2 : e.start ≤ (m : Int) + 1 <;>
+        by_cases h3 : e.start = (m : Int) + 1 <;> simp [h, h1, h2, h3] <;> omega
+    · have h1 : e.start ≤ (m : Int) := by omega
+      have h3 : ¬ (0 : Int) = (m : Int) + 1 := by omega
+      simp [h, h1, h3]
+
+/-- ... in particular an emission of the scenario is handed out on day `n` iff `max start 0 = n` -/
+theorem activation_day_mem (s : Src) (hs : sortedByStart s.all = true) (n : Nat) (e : EmId)
+    (he : e ∈ s.all) :
+    e ∈ handedOutOn n s ↔ (if e.start > 0 then e.start else 0) = (n : Int) := by
+  rw [activation_day s hs n]
+  simp [he]
+
+
+/-! ### emission objects, arbitrary program behaviours, copy vs in place -/
+
+theorem copyEm_eq (e : EmId) : copyEm e = e := by cases e; rfl
+
+theorem deepcopy_eq (inf : Infra) : deepcopy inf = inf := by
+  have h : copyEm = id := funext copyEm_eq
+  unfold deepcopy
+  rw [h]
+  induction inf with
+  | nil => rfl
+  | cons s t ih =>
+    simp only [List.map_cons, List.map_id, Option.map_id, id] at ih ⊢
+    rw [ih]
+
+/-- the identity channel of a program run on an infrastructure object is the run of the cursor loop
+on its pending lists — whatever the program does to the emissions it holds -/
+theorem runProgramO_proj (b : Beh) (k : Nat) (day : Int) (inf : Infra) :
+    (runProgramO b k day inf).1 = (runProgram k day (inf.map (·.src))).1 ∧
+    (runProgramO b k day inf).2.map (·.src) = (runProgram k day (inf.map (·.src))).2 := by
+  induction k generalizing day inf with
+  | zero => simp [runProgramO, runProgram]
+  | succ k ih =>
+    have h1 : (inf.map (daySrcO b day)).map (·.1) = ((inf.map (·.src)).map (activateSrc day)).map (·.1) := by
+      simp [List.map_map, Function.comp, daySrcO]
+    have h2 : ((inf.map (daySrcO b day)).map (·.2)).map (·.src) =
+        ((inf.map (·.src)).map (activateSrc day)).map (·.2) := by
+      simp [List.map_map, Function.comp, daySrcO]
+    have := ih (day + 1) ((inf.map (daySrcO b day)).map (·.2))
+    simp only [runProgramO, runProgram]
+    rw [this.1, this.2, h1, h2]
+    exact ⟨rfl, rfl⟩
+
+/-- what a program faces does not depend on what it does: the objects its components already hold,
+then the longest started prefixes of the pending lists — as found -/
+theorem facedBy_fst (b : Beh) (N : Nat) (inf : Infra) :
+    (facedBy b N inf).1 =
+      List.zipWith (· ++ ·) (inf.map (·.held)) (runProgram N 0 (inf.map (·.src))).1 := by
+  unfold facedBy
+  simp only
+  rw [(runProgramO_proj b N 0 inf).1]
+
+theorem zipWith_nil_left {α β : Type} (l : List β) (xs : List (List α)) (h : xs.length = l.length) :
+    List.zipWith (· ++ ·) (l.map (fun _ => ([] : List α))) xs = xs := by
+  induction l generalizing xs with
+  | nil => cases xs with
+    | nil => rfl
+    | cons x xs => simp at h
+  | cons a l ih =>
+    cases xs with
+    | nil => simp at h
+    | cons x xs =>
+      simp only [List.map_cons, List.zipWith_cons_cons, List.nil_append]
+      rw [ih xs (by simpa using h)]
+
+theorem runProgram_length (k : Nat) (day : Int) (st : Store) : (runProgram k day st).1.length = st.length := by
+  rw [runProgram_eq]; simp
+
+/-- on a freshly loaded scenario a program faces exactly what the cursor loop hands out -/
+theorem facedBy_pristine (b : Beh) (N : Nat) (g : Infra) (hp : pristine g) :
+    (facedBy b N g).1 = (runProgram N 0 (g.map (·.src))).1 := by
+  rw [facedBy_fst]
+  have : g.map (·.held) = g.map (fun _ => ([] : List EmId)) :=
+    List.map_congr_left (fun s hs => hp s hs)
+  rw [this]
+  apply zipWith_nil_left
+  rw [runProgram_length]; simp
+
+/-- with the copy, each program of a worker faces what the first one faces — whatever any of them does -/
+theorem runSeqO_copied (N : Nat) (ps : List (Nat × Beh)) (g : Infra) :
+    ∀ x ∈ runSeqO .copied N ps g,
+      x.2 = List.zipWith (· ++ ·) (g.map (·.held)) (runProgram N 0 (g.map (·.src))).1 := by
+  induction ps with
+  | nil => intro x hx; cases hx
+  | cons p ps ih =>
+    intro x hx
+    obtain ⟨p, b⟩ := p
+    simp only [runSeqO, List.mem_cons] at hx
+    rcases hx with rfl | hx
+    · simp only [deepcopy_eq, facedBy_fst]
+    · exact ih x hx
+
+/-- **C01 on emission objects.**  The deep-copy interpreter, for every set of programs with
+ARBITRARY behaviours (each may mutate the life-cycle fields of every emission it holds, every day),
+every order and every allocation to workers: every program is confronted, source by source, with
+exactly the emission objects of the loaded scenario that start within the period — same identity
+(id, start, rate, repairability, natural end) and life-cycle fields as generated. -/
+theorem C01_objects (N : Nat) (workers : List (List (Nat × Beh))) (g : Infra) (hp : pristine g)
+    (hs : ∀ s ∈ g, sortedByStart s.src.all = true) :
+    ∀ x ∈ runScheduleO .copied (N + 1) workers g, x.2 = expected (N + 1) (g.map (·.src)) := by
+  intro x hx
+  simp only [runScheduleO, List.mem_flatten, List.mem_map] at hx
+  obtain ⟨l, ⟨ps, _, rfl⟩, hxl⟩ := hx
+  rw [deepcopy_eq] at hxl
+  rw [runSeqO_copied (N + 1) ps g x hxl, ← facedBy_fst (fun _ _ e => e.life), facedBy_pristine _ _ _ hp]
+  apply activate_complete
+  intro s hsm
+  obtain ⟨t, ht, rfl⟩ := List.mem_map.1 hsm
+  exact hs t ht
+
+/-- non-interference proper (no hypothesis on the scenario): under the copy any two programs of a
+schedule face the same objects, whatever they and the others do -/
+theorem C01_objects_any_two (N : Nat) (workers : List (List (Nat × Beh))) (g : Infra) :
+    ∀ x ∈ runScheduleO .copied N workers g, ∀ y ∈ runScheduleO .copied N workers g, x.2 = y.2 := by
+  intro x hx y hy
+  simp only [runScheduleO, List.mem_flatten, List.mem_map] at hx hy
+  obtain ⟨l, ⟨ps, _, rfl⟩, hxl⟩ := hx
+  obtain ⟨l', ⟨ps', _, rfl⟩, hyl⟩ := hy
+  rw [runSeqO_copied N ps _ x hxl, runSeqO_copied N ps' _ y hyl]
+
+/-- a program that "repairs" (sets the life-cycle field to 7) whatever it holds -/
+def repairAll : Beh := fun _ _ _ => 7
+
+/-- without the copy the property fails, in both ways.  (1) identity level: the second program of a
+worker finds the pending lists consumed (`C01_needs_copy_consumed`).  (2) mutation witness: on
+emission objects the second program finds, in its components, the very objects the first one was
+handed — the same identities as the scenario, but already "repaired" by the first program. -/
+theorem C01_needs_copy :
+    (∃ (g : Store) (N : Nat), ∃ x ∈ runSchedule .shared N [[0, 1]] g, x.2 ≠ expected N g) ∧
+    (∃ (g : Infra) (N : Nat), pristine g ∧ (∀ s ∈ g, sortedByStart s.src.all = true) ∧
+      ∃ x ∈ runScheduleO .shared N [[(0, repairAll), (1, repairAll)]] g,
+        x.2.map (·.map ident) = (expected N (g.map (·.src))).map (·.map ident) ∧
+        x.2 ≠ expected N (g.map (·.src))) := by
+  refine ⟨C01_needs_copy_consumed, ?_⟩
+  refine ⟨[{ tag := 0, src := { pending := [{ id := 0, start := -3, rate := 512, nrd := 30 },
+                                              { id := 1, start := 2, rate := 1024, nrd := 30 }] } }], 5, ?_⟩
+  decide +kernel
+
 /-! ### obligations on the wiring extracted from the current source (Generated/Wiring.lean) -/
 
-/-- which interpreter the code as it stands implements -/
+open Generated.Wiring in
+/-- which interpreter the code as it stands implements: `copied` only when `simulate()` deep-copies,
+hands on nothing but the copy, and no class reachable from the infrastructure overrides what
+`copy.deepcopy` / pickling does -/
 def modeOfCode : Mode :=
-  if Generated.Wiring.simulateDeepCopies && Generated.Wiring.simulateUsesOnlyCopy then .copied else .shared
+  if simulateDeepCopies && simulateUsesOnlyCopy && customCopyHooks.isEmpty then .copied else .shared
 
 /-- `simulate()` deep-copies the infrastructure on every path and hands only the copy on; the scenario
 is loaded once per simulation number before the program loop; generation reads no life-cycle field -/
 theorem wiring_ok :
     Generated.Wiring.simulateDeepCopies = true ∧ Generated.Wiring.simulateUsesOnlyCopy = true ∧
     Generated.Wiring.scenarioLoadedOncePerSim = true ∧ Generated.Wiring.generationIgnoresLifecycle = true := by
+  decide
+
+open Generated.Wiring in
+/-- no class of virtual_world/* or emission_types/* defines `__deepcopy__`, `__copy__`,
+`__reduce_ex__` or `__getstate__`; no `__reduce__`/reconstructor pair drops or misplaces a field;
+`Source._create_emission` and the helpers it calls touch no life-cycle attribute -/
+theorem copy_hooks_ok :
+    customCopyHooks = [] ∧ reduceDropped = [] ∧ reduceMisassigned = [] ∧ creationLifecycleReads = [] := by
+  decide
+
+open Generated.Wiring in
+/-- does the `__reduce__` of class `cls` carry attribute `attr`? (no `__reduce__`: default pickling
+keeps the whole `__dict__`) -/
+def carried (cls attr : String) : Bool :=
+  match reduceArgs.lookup cls with
+  | none => true
+  | some args => args.contains "*" || args.contains attr
+
+open Generated.Wiring in
+/-- recomputed in Lean from the two raw tables: every attribute an `__init__` of the infrastructure /
+emission classes sets is carried by the class's `__reduce__` — nothing is lost when the scenario is
+deep-copied for a program or pickled to a pool worker -/
+theorem reduce_keeps_every_init_field :
+    ∀ p ∈ initAttrs, ∀ a ∈ p.2, carried p.1 a = true := by
+  decide
+
+/-- the identity fields, the pending lists, the cursor and the component lists survive pickling -/
+theorem identity_fields_pickled :
+    carried "RepairableEmission" "_nrd" = true ∧ carried "NonRepairableEmission" "_duration" = true ∧
+    carried "Emission" "_rate" = true ∧ carried "Emission" "_start_date" = true ∧
+    carried "Emission" "_emissions_id" = true ∧ carried "Emission" "_repairable" = true ∧
+    carried "Source" "_generated_emissions" = true ∧ carried "Source" "_next_emission" = true ∧
+    carried "Component" "_active_emissions" = true ∧ carried "Component" "_inactive_emissions" = true := by
   decide
 
 /-- C01 for the code as extracted today -/
@@ -207,6 +462,14 @@ theorem C01_current_code (N : Nat) (workers : List (List Nat)) (g : Store)
   rw [this]
   exact C01 N workers g hs
 
+/-- ... and on emission objects, for arbitrary program behaviours -/
+theorem C01_current_code_objects (N : Nat) (workers : List (List (Nat × Beh))) (g : Infra)
+    (hp : pristine g) (hs : ∀ s ∈ g, sortedByStart s.src.all = true) :
+    ∀ x ∈ runScheduleO modeOfCode (N + 1) workers g, x.2 = expected (N + 1) (g.map (·.src)) := by
+  have : modeOfCode = .copied := by decide
+  rw [this]
+  exact C01_objects N workers g hp hs
+
 /-- non-vacuity of the sortedness hypothesis and of `C01` -/
 example :
     let g : Store := [{ pending := [{ id := 0, start := -3 }, { id := 1, start := 2 }, { id := 2, start := 9 }] },
@@ -216,6 +479,22 @@ example :
       [(0, [[{ id := 0, start := -3 }, { id := 1, start := 2 }], [{ id := 0, start := 4 }]]),
        (1, [[{ id := 0, start := -3 }, { id := 1, start := 2 }], [{ id := 0, start := 4 }]]),
        (2, [[{ id := 0, start := -3 }, { id := 1, start := 2 }], [{ id := 0, start := 4 }]])] := by
+  decide +kernel
+
+/-- non-vacuity of `C01_objects`: a pristine sorted scenario, two workers, three programs with
+different behaviours (do nothing / repair everything / age by the day number) -/
+example :
+    let g : Infra := [{ tag := 0, src := { pending := [{ id := 0, start := -3, rate := 512, nrd := 30 },
+                                                         { id := 1, start := 2, rate := 1024, nrd := 30 },
+                                                         { id := 2, start := 9 }] } },
+                      { tag := 1, src := { pending := [{ id := 0, start := 4, repairable := false, nrd := 20 }] } }]
+    let ps : List (List (Nat × Beh)) :=
+      [[(0, fun _ _ e => e.life), (1, repairAll)], [(2, fun d _ e => e.life + d.toNat)]]
+    pristine g ∧ (∀ s ∈ g, sortedByStart s.src.all = true) ∧
+    (∀ x ∈ runScheduleO .copied 6 ps g, x.2 = expected 6 (g.map (·.src))) ∧
+    (runScheduleO .copied 6 ps g).length = 3 ∧
+    handedOutOn 0 { pending := [{ id := 0, start := -3 }, { id := 1, start := 2 }] } = [{ id := 0, start := -3 }] ∧
+    handedOutOn 2 { pending := [{ id := 0, start := -3 }, { id := 1, start := 2 }] } = [{ id := 1, start := 2 }] := by
   decide +kernel
 
 end LdarModel.Heap
